@@ -253,6 +253,12 @@ Section Spec.
     | (e, a) :: r => spec_step pend e b a && spec_run (pend_after pend e b) a r
     end.
 
+  (** shutdown (context cancelled, every job and pass runs to its end): no Issue succeeds, storage
+      is not written, and the cache clauses 3-6 hold between the last observation and the end *)
+  Definition spec_final (b a : obs) : bool :=
+    c_consistent a && same_store a b && list_nat_eqb (o_issued a) (o_issued b) &&
+    c_not_due_kept b a && c_unman_od_kept b a && c_removal_replaced b a && c_added_from_storage b a.
+
   Fixpoint first_false (i : nat) (l : list bool) : option nat :=
     match l with
     | [] => None
